@@ -44,7 +44,17 @@ func genHistPlan(r *zsim.Rng) *histPlan {
 		if s == "" {
 			s = "q"
 		}
-		return s + strconv.Itoa(r.Intn(50))
+		s += strconv.Itoa(r.Intn(50))
+		// a query may begin or end with blanks; the file keeps them
+		switch r.Intn(8) {
+		case 0:
+			s = " " + s
+		case 1:
+			s += " "
+		case 2:
+			s = "  " + s + "\t"
+		}
+		return s
 	}
 	p := &histPlan{InitKind: r.Intn(4)}
 	p.Max = []int{1, 2, 3, 5, 8, 1000}[r.Intn(6)]
